@@ -73,18 +73,20 @@ def _corrupted(evs):
     for c in pick(lambda e: changed(e) and e["ev"]["o"] == "ok" and e["ev"]["th"] == e["pt"]["th"]):
         c["ev"]["th"]["c"] = [c["ev"]["th"]["c"][0], c["ev"]["th"]["c"][1], c["x"]]
         res.append((c, "EvalSame"))
-    # ValuePreserved: the right-hand side is replaced by the one of an input with another value (x + 1 for x)
-    for ty, mode in (("nat", "arith"), ("real", "arith"), ("bool", "conj")):
-        cs = pick(lambda e: changed(e) and e["ty"] == ty and e["mode"] == mode and e["src"] == "replay" and e["ax"][0] in ("+", "*", "and")
-                  and e["pt"]["th"]["c"][2][0] != "const", 40)
-        done = 0
-        for c in cs:
-            other = [d for d in cs if d["pt"]["th"]["c"][2] != c["pt"]["th"]["c"][2] and d["cv"] == c["cv"]]
-            if other and done < 2:
-                # the class of `other` may coincide: pick several, at least one differs (the T spec decides); keep those it flags
-                c["pt"]["th"]["c"] = [c["pt"]["th"]["c"][0], c["pt"]["th"]["c"][1], other[-1 - done]["pt"]["th"]["c"][2]]
-                res.append((c, "ValuePreserved?"))
-                done += 1
+    # ValuePreserved: the right-hand side is replaced by the normal form of an input of ANOTHER class (distinct normal forms of a
+    # canonical normaliser; the T spec decides: at least one of the group must be flagged)
+    for ty, mode, cv in (("nat", "arith", "nat_norm_full"), ("real", "arith", "real_norm"), ("bool", "conj", "conj_norm")):
+        first = {}
+        for e in evs:
+            if changed(e) and e["ty"] == ty and e["mode"] == mode and e["cv"] == cv and e["src"] == "replay" and e["pt"]["th"]["c"][2][0] != "const":
+                first.setdefault(json.dumps(e["pt"]["th"]["c"][2]), e)
+                if len(first) >= 4:
+                    break
+        reps = list(first.values())
+        for i in range(len(reps) - 1):
+            c = copy.deepcopy(reps[i])
+            c["pt"]["th"]["c"] = [c["pt"]["th"]["c"][0], c["pt"]["th"]["c"][1], reps[i + 1]["pt"]["th"]["c"][2]]
+            res.append((c, "ValuePreserved?"))
     # Idempotent: normalising the normal form gives something else
     for c in pick(lambda e: changed(e) and e["cv"] in ("nat_norm_full", "real_norm", "conj_norm") and e["idem"]["o"] == "ok"):
         eqc, lhs, rhs = _eq_parts(c["idem"]["th"]["c"])
@@ -171,14 +173,14 @@ def run(rep, tier):
         rep.notes["term_universe"] = " ".join(r2.out[r2.out.find('<< "terms"'):].split(">>")[0].replace("<<", "").split())
     # ---- spec -> code: one driver process (theories loaded once), forked workers
     allp = wd / "events.ndjson"
-    arith_mod, int_mod, comb_mod, nrand = (3, 2, 3, 40) if quick else (4, 2, 1, 1200)
-    p, _ = run_driver("c10", ["all", dump_file, vec, allp, 3 if quick else 4, arith_mod, int_mod, comb_mod, nrand, seed()], timeout=6000)
+    arith_mod, int_mod, comb_mod, nrand, cap = (1, 2, 3, 40, 30) if quick else (1, 1, 2, 1000, 60)
+    p, _ = run_driver("c10", ["all", dump_file, vec, allp, 3 if quick else 4, arith_mod, int_mod, comb_mod, nrand, seed(), cap], timeout=6000)
     rep.notes["driver"] = p.stdout.strip().splitlines()[-5:]
     phase("driver")
     # ---- code -> spec: the validation of the events (3 JVMs) runs while Python reads them; the corrupted copies (binding
     #      self-test) are validated by a fourth run
     with ThreadPoolExecutor(max_workers=2) as ex:
-        fv = ex.submit(validate_trace, TSPEC, allp, wd=wd / "tv", nchunks=3 if quick else 8, timeout=6000)
+        fv = ex.submit(validate_trace, TSPEC, allp, wd=wd / "tv", nchunks=3 if quick else 16, timeout=6000)
         evs = read_events(allp)
         require(len(evs) < SELF_BASE, "C10: tid ranges overlap")
         # every state of the machine came back from the dump reader (binding of the dump reader)
